@@ -113,17 +113,22 @@ class V1Sig(V2Sig):
 
 
 class HierSim(V3Sig):
-    """create() returns a Parent entity with one child of model Child (different attributes)."""
+    """create() returns a Parent entity with children of two different models (Child first, then Other, which
+    has a Child grandchild again), each model with its own attributes."""
 
     def init(self, sid, time_resolution=None, **kw):
         self.sid = sid
         self.meta = {"api_version": "3.0", "type": "hybrid", "models": {
             "Parent": {"public": True, "params": [], "attrs": ["p_in", "p_out"], "trigger": ["p_in"], "non-persistent": ["p_out"]},
-            "Child": {"public": False, "params": [], "attrs": ["c_in", "c_out"], "trigger": ["c_in"], "non-persistent": ["c_out"]}}}
+            "Child": {"public": False, "params": [], "attrs": ["c_in", "c_out"], "trigger": ["c_in"], "non-persistent": ["c_out"]},
+            "Other": {"public": False, "params": [], "attrs": ["o_in", "o_out"], "trigger": ["o_in"], "non-persistent": ["o_out"]}}}
         return self.meta
 
     def create(self, num, model, **params):
-        return [{"eid": f"p{i}", "type": "Parent", "children": [{"eid": f"p{i}c", "type": "Child"}]} for i in range(num)]
+        return [{"eid": f"p{i}", "type": "Parent", "children": [
+            {"eid": f"p{i}c", "type": "Child"},
+            {"eid": f"p{i}o", "type": "Other", "children": [{"eid": f"p{i}oc", "type": "Child"}]},
+            {"eid": f"p{i}c2", "type": "Child"}]} for i in range(num)]
 
 
 SHARED_META: Dict[str, Dict[str, Any]] = {}
